@@ -6,7 +6,7 @@ NAMESPACE = "Rbp.Props.C15"
 REQUIRED = ["counts_volume_fees_spec", "mean_exact", "biggest_first_on_ties", "fee_rule", "reward_halving"]
 LEAN_FILES = ["Rbp/Model/Callbacks.lean", "Rbp/Model/Run.lean", "Rbp/Proofs/Stats.lean"]
 RULE = ("black-box `simplestats` vs the whole-program Lean model: every integer figure compared exactly; every printed float p with d decimals must satisfy |p - q| <= 0.5*10^-d (+1e-12 relative) for the model's exact rational q "
-        "(floats are never compared as text); the type table compared as a set (count, first height, first txid) and its shares numerically. Chains: all script types, non-monotonic timestamps, ties for both maxima, coinbases above/below/at the subsidy, "
+        "(floats are never compared as text); the type table compared as a set (count, first height, first txid) and its shares numerically. Chains: all script types, non-monotonic timestamps, ties for both maxima, coinbases above/below/at the subsidy, coinbase-shaped transactions at any position of a block (and two-input look-alikes), "
         "heights across the 210000 halving boundary (sparse indexes), size prefixes and timestamp gaps whose sums exceed 2^32 (the size prefix is not validated, so 3 blocks with prefix 0x90000000 suffice). Hook `mean` on u32 lists incl. sums beyond 2^32, hook `basereward`. "
         "non-trivial = at least 2 blocks; distinct = distinct scenarios / requests")
 ASSUMPTIONS = ["sum of output values < 2^64; heights < 64*210000; timestamps > 0 (the code's `no previous block` test)"]
@@ -64,6 +64,21 @@ def correspondence(ctx):
             s.start = first + r.randrange(0, len(blocks))
             s.stop = r.choice([None, s.start + 1 + r.randrange(len(blocks))])
         s.meta = {"i": i, "first": first}
+        scns.append(s)
+    # coinbase-shaped transactions anywhere in the block (fees are defined per coinbase, not per first transaction)
+    for k in range(ctx.n(10, 60)):
+        coin = K.COINS[k % 8]
+        blocks = GC.gen_chain(r, coin, r.randrange(2, 6), max_txs=3, max_io=2, auxpow_mix=False)
+        for h, b in enumerate(blocks):
+            extra = K.Tx([(b"\0" * 32, 0xffffffff, bytes([2, h, k & 255]), 0xffffffff)], [(GC.subsidy(h) + r.randrange(1, 10**6), GC.spk(r, coin, "p2pkh")), (5, GC.spk(r, coin, "p2sh"))])
+            pos = r.choice([0, 1, len(b.txs)])
+            b.txs.insert(pos, extra)
+            if r.random() < 0.3:
+                b.txs.append(K.Tx([(b"\0" * 32, 0xffffffff, b"\x01\x07", 0xffffffff), (GC.rb(r, 32), 0, b"", 1)], [(GC.subsidy(h) + 777, GC.spk(r, coin, "p2pkh"))]))   # 2 inputs: not a coinbase
+        GH.link(blocks)
+        s = K.Scenario(coin=coin, callback="simplestats")
+        GC.simple_layout(s, blocks)
+        s.meta = {"extra-coinbase": k}
         scns.append(s)
     # ties for both maxima: identical-value / identical-size txs in different blocks
     for k in range(ctx.n(6, 40)):
